@@ -65,7 +65,15 @@ def define():
     lazy("ElemRef", "Insert", 3, 3, "call", "heap", "heap", "B3D")
     lazy("Handle", "Push", 1, 0, "clone", "heap", "heap", "W8D")
     lazy("ElemRef", "Downcast", 1, 1, "clone", "heap", "heap", "D24D", L=1)
-    # thorough
+    # rotation pool (quick, by seed): other cloneable constraint sets / backends on the cheap 3-byte element
+    for tr in ("csend", "csync", "call"):
+        for b in ("heap", "stack", "reloc", "stackn"):
+            for a in ("Nothing", "PushClone", "RemoveOrig", "MutateClone", "ClearOrig"):
+                if b in ("stack", "stackn"):
+                    clone(a, tr, b, "B3D", L=2, tier="rot12")
+                else:
+                    clone(a, tr, b, "B3D", L=2, ln=(2 if a != "Nothing" else 1), tier="rot12")
+    # thorough: full cross product
     for tr in CLONEABLE:
         for b in ("heap", "stack", "reloc", "stackn"):
             for elem in ("B3D", "W8D", "W8", "B1", "Z0D"):
@@ -73,10 +81,10 @@ def define():
                     continue
                 for a in AFTERS:
                     if b in ("stack", "stackn"):
-                        clone(a, tr, b, elem, L=3, tier="thorough" if tr == "clone" else "rot64")
+                        clone(a, tr, b, elem, L=3, tier="thorough")
                     else:
                         for n in (0, 1, 2, 3):
-                            clone(a, tr, b, elem, L=3, ln=n, tier="thorough" if (tr == "clone" and elem in ("B3D", "W8")) else "rot128")
+                            clone(a, tr, b, elem, L=3, ln=n, tier="thorough")
     for b in ("heap", "stack", "reloc", "stackn"):
         for x in ("heap", "stack", "reloc", "stackn"):
             clone_empty(False, "clone", b, x, "W8D", tier="thorough")
